@@ -238,7 +238,7 @@ def real_run(ops, config: str, timeout: float = 20.0, chooser=None, nsteps: int 
                 return lp
             anyio.run(main, backend_options={"loop_factory": factory})
     except BaseException as e:  # noqa: BLE001
-        loop_exc.append(repr(e)[:300])
+        loop_exc.append(type(e).__name__)
     w = out.get("world")
     if w is not None:
         w.info = {k: v for k, v in out.items() if k != "world"}
